@@ -16,6 +16,11 @@ import (
 // after the second test). The exploration is bounded; on exhaustion it answers with the
 // block where it gave up (a conservative "found").
 func pathSearch(start *ssa.BasicBlock, region map[*ssa.BasicBlock]bool, stop instrPred, goal func(b *ssa.BasicBlock) bool, edgeOK func(from, to *ssa.BasicBlock) bool) *ssa.BasicBlock {
+	return pathSearchFrom(nil, start, region, stop, goal, edgeOK)
+}
+
+// pathSearchFrom is pathSearch for a start block entered over the edge from -> start.
+func pathSearchFrom(from0, start *ssa.BasicBlock, region map[*ssa.BasicBlock]bool, stop instrPred, goal func(b *ssa.BasicBlock) bool, edgeOK func(from, to *ssa.BasicBlock) bool) *ssa.BasicBlock {
 	type fact struct {
 		v   ssa.Value
 		nil bool
@@ -93,6 +98,12 @@ func pathSearch(start *ssa.BasicBlock, region map[*ssa.BasicBlock]bool, stop ins
 					}
 					cond, neg = u.X, !neg
 				}
+				// a flag that is a constant on the way taken (phi of constants, bound above)
+				if k, isK := resolve(cond, alias).(*ssa.Const); isK && k.Value != nil && (k.Value.String() == "true" || k.Value.String() == "false") {
+					if ((k.Value.String() == "true") != neg) != (i == 0) {
+						continue
+					}
+				}
 				if bin, ok := cond.(*ssa.BinOp); ok && (bin.Op == token.EQL || bin.Op == token.NEQ) {
 					var v ssa.Value
 					if k, isK := bin.Y.(*ssa.Const); isK && k.IsNil() {
@@ -127,6 +138,6 @@ func pathSearch(start *ssa.BasicBlock, region map[*ssa.BasicBlock]bool, stop ins
 			}
 		}
 	}
-	run(start, nil, map[ssa.Value]bool{}, map[ssa.Value]ssa.Value{}, 0)
+	run(start, from0, map[ssa.Value]bool{}, map[ssa.Value]ssa.Value{}, 0)
 	return found
 }
